@@ -335,10 +335,11 @@ pub fn make_run(seed: u64, run: u64, menu: &[Box<dyn TyObj>]) -> RunSpec {
     let ti = pick_type(&mut p, menu);
     let ty = &menu[ti];
     let (w, db, signed) = (ty.bytes(), ty.digit_bytes(), ty.signed());
-    let mode = match p.below(10) {
-        0..=3 => 1u8, // cluster run
-        4..=5 => 2,   // fault-free twin of the mixed workload
-        _ => 0,       // mixed workload with faults
+    let mode = match p.below(40) {
+        0..=13 => 1u8, // cluster run
+        14..=21 => 2,  // fault-free twin of the mixed workload
+        22 => 3,       // fibre walk: exact fibre sizes at any width
+        _ => 0,        // mixed workload with faults
     };
     let faults_on = mode == 0;
     let sw = Swarm {
@@ -364,7 +365,11 @@ pub fn make_run(seed: u64, run: u64, menu: &[Box<dyn TyObj>]) -> RunSpec {
     let infallible = p.chance(1, 4);
     let fresh_seed = p.next();
     let mut ops = Vec::new();
-    if mode == 1 {
+    if mode == 3 {
+        let (a, b) = walk_ops(&mut p, &sw, w, db, signed);
+        ops.push(a);
+        ops.push(b);
+    } else if mode == 1 {
         ops.push(cluster_op(&mut p, &sw, w, db, signed, &shape_w));
         // a second, unrelated op afterwards on the same RNG
         if p.chance(1, 3) {
@@ -477,4 +482,45 @@ pub fn sweep_bounds(p: &mut Prng, w: usize, db: usize, signed: bool) -> (Vec<u8>
     let shape_w = [2u32, 4, 5, 8, 5, 6, 12, 12, 3, 3, 10, 8];
     let (r, _) = gen_rsize(p, w, db, &shape_w);
     place(p, w, db, signed, &r)
+}
+
+/// two fibre walks over one sampler configuration with moderate q = floor(2^W / r): from a random word, and
+/// from an edge of the word space (or a second random word)
+fn walk_ops(p: &mut Prng, sw: &Swarm, w: usize, db: usize, signed: bool) -> (Op, Op) {
+    let _ = db;
+    let maxbits = if w > 160 { 4 } else if w > 64 { 6 } else if w > 16 { 9 } else { 11 };
+    let bits = p.below(maxbits + 1);
+    let mut qq = (1u64 << bits) + p.below(1u64 << bits);
+    // q cannot exceed what the width allows with r >= 2
+    if w == 1 {
+        qq = qq.min(100);
+    }
+    let hi = if qq == 1 { vec![0xFFu8; w] } else { refint::pow2_div_small(w, qq, 0) };
+    let lo = refint::add_small(&refint::pow2_div_small(w, qq + 1, 0), 1);
+    let r = if refint::ucmp(&lo, &hi) == Ordering::Greater {
+        hi
+    } else {
+        let span = refint::sub(&hi, &lo);
+        let t = below_incl(p, &span);
+        refint::sub(&hi, &t)
+    };
+    let r = if refint::is_zero(&r) { refint::from_u64(1, w) } else { r };
+    let (low, high_incl) = place(p, w, db, signed, &Some(r));
+    let (low, high, inclusive) = api_bounds(p, w, signed, low, high_incl);
+    let via = p.below(3) as u8;
+    let dynamic = p.below(4) < sw.dyn_rate;
+    let mk = |p: &mut Prng, edge: bool| -> Op {
+        let fibres = 2 + p.below(3) as u8;
+        let (start, up) = if edge {
+            if p.chance(1, 2) { (vec![0u8; w], true) } else { (vec![0xFFu8; w], false) }
+        } else {
+            (p.bytes(w), p.chance(1, 2))
+        };
+        let max_steps = ((fibres as u64 + 2) * (qq + 2) + 8) as u32;
+        Op { kind: OpKind::FibreWalk { low: low.clone(), high: high.clone(), inclusive, via, start, up, fibres, max_steps }, dynamic, calls: Vec::new(), shape: 12 }
+    };
+    let a = mk(p, false);
+    let second_edge = p.chance(1, 2);
+    let b = mk(p, second_edge);
+    (a, b)
 }
